@@ -231,8 +231,9 @@ func (c *Client) ExchangeWithConnContext(ctx context.Context, m *Msg, co *Conn) 
 		for {
 			r, err = co.ReadMsg()
 			// Ignore replies with mismatched IDs because they might be
-			// responses to earlier queries that timed out.
-			if err != nil || r.Id == m.Id {
+			// responses to earlier queries that timed out. A reply that
+			// was read but does not unpack or verify still carries its ID.
+			if r == nil || r.Id == m.Id {
 				break
 			}
 		}
